@@ -26,7 +26,7 @@ func kernelGenerateConverters(e2e string) layera.Kernel {
 
 func kernelConverterLines(e2e string) layera.Kernel {
 	return layera.Kernel{Name: "K8.converterlines", Pkg: "config", Harness: "VerifHarness_C15_ConverterLines", Unwind: 64, E2E: e2e,
-		Stub: []string{"(*github.com/jmattheis/goverter/pkgload.PackageLoader).GetMatching"}}
+		Stub: []string{"(*github.com/jmattheis/goverter/pkgload.PackageLoader).GetMatching", "(*github.com/jmattheis/goverter/pkgload.PackageLoader).GetOneRaw", "github.com/jmattheis/goverter/method.Parse"}}
 }
 
 func runC15(opt *Options) int {
@@ -89,6 +89,8 @@ func runC17(opt *Options) int {
 			{Name: "K8.writefailure", Pkg: ".", Harness: "VerifHarness_C17_WriteFailure", Unwind: 16, E2E: "c17",
 				Stub: []string{"github.com/jmattheis/goverter/comments.ParseDocs", "github.com/jmattheis/goverter/config.Parse", "github.com/jmattheis/goverter/generator.Generate"}},
 			{Name: "K7.nomarker", Pkg: "comments", Harness: "VerifHarness_C19_NoMarker", Unwind: 64},
+			// a faulty marked declaration inside a type group is reported wherever it stands among the others
+			{Name: "K7.specgroup", Pkg: "comments", Harness: "VerifHarness_C19_Group", Unwind: 64},
 			{Name: "K8.extendfault", Pkg: "config", Harness: "VerifHarness_C17_ExtendFault", Unwind: 24, E2E: "c17", Stub: []string{"(*github.com/jmattheis/goverter/pkgload.PackageLoader).GetMatching"}},
 		},
 		Funcs:     []string{"goverter.GenerateConverters", "goverter.generateConvertersRaw", "goverter.writeFiles", "generator.Generate", "generator.(*fileManager).Get", "generator.(*fileManager).renderFiles", "cli.Run", "config.parseConverterLine (extend arm)", "generator.validateMethods", "generator.setupGenerator"},
